@@ -282,8 +282,12 @@ Definition ep_dump_di (v : pyval) : pyval :=
   | _ => bad_input
   end.
 
+(* the INI writer alone, on a section table *)
+Definition ep_print_ini (v : pyval) : pyval :=
+  match get_ini v with Some t => PStr (print_ini t) | None => bad_input end.
+
 Definition entries_ti : list (str * (pyval -> pyval)) :=
-  [ (lit "dump_ti", ep_dump_ti); (lit "load_ti", ep_load_ti); (lit "dump_di", ep_dump_di) ].
+  [ (lit "dump_ti", ep_dump_ti); (lit "load_ti", ep_load_ti); (lit "dump_di", ep_dump_di); (lit "print_ini", ep_print_ini) ].
 
 (* ---------------- checksums *)
 From PM Require Import Model.Checksums.
